@@ -134,7 +134,7 @@ TraceNext ==
             THEN pub' = <<>> /\ rt' = 0 /\ okC08' = TRUE /\ okC06' = TRUE /\ leak' = {}
             ELSE /\ pub' = PubNext(pub, ev')
                  /\ rt' = RtNext(rt, ev')
-                 /\ okC08' = StepOk(okC08, ev')
+                 /\ okC08' = StepOk(okC08, pub, ev')
                  /\ okC06' = NoResize(okC06, ev')
                  /\ leak' = IF r.act = "updateSnapshotCount" /\ r.res = "HALT" /\ r.x < count THEN leak \cup {epoch - r.x} ELSE leak
                  /\ Judge(r)
